@@ -203,6 +203,77 @@ def run(ck):
             ck.fail("raises:block_distributed_%s" % kind, "helper raised %r" % (e,), {"api": kind, "size": size, "start_or_0": a, "stop_or_len": b})
     finally:
         cfg.size, cfg.rank, cfg.parallel_level, cfg.parallel_region = saved
+    # ---- the library's own distributed loops: every simulated process reproduces the serial result -----------------------
+    # (mpi4py is absent: the processes are run one after the other; the buffers of the k-th reduction are collected in pass k
+    # and handed to all processes in pass k+1, until no reduction is left open)
+    try:
+        from quantarhei import Molecule, Aggregate, TimeAxis, CorrelationFunction, energy_units
+        from quantarhei.qm import RedfieldRelaxationTensor, RedfieldRateMatrix
+        rng = ck.rng
+
+        def emulate(calc, P):
+            totals = []
+            while True:
+                captured, results, tables = [], [], []
+                for rank in range(P):
+                    calls, mine = [0], []
+
+                    def allreduce(A, operation="sum", calls=calls, mine=mine):
+                        i = calls[0]; calls[0] += 1
+                        tables.append([tuple(b) for b in cfg.ranges])
+                        if i < len(totals):
+                            A[...] = totals[i]
+                        elif i == len(totals):
+                            mine.append(A.copy())
+                    saved_d = dict(cfg.__dict__)
+                    cfg.have_mpi = False; cfg.size = P; cfg.rank = rank; cfg.parallel_level = 1
+                    cfg.allreduce = allreduce
+                    try:
+                        results.append(calc())
+                    finally:
+                        cfg.__dict__.clear(); cfg.__dict__.update(saved_d)
+                    captured.append(mine)
+                if all(len(m_) == 0 for m_ in captured):
+                    return results, tables
+                totals.append(sum(m_[0] for m_ in captured))
+
+        for h in range(ck.n(2, 8)):
+            nsite = rng.choice([2, 3, 4])
+            tat = TimeAxis(0.0, 200, 2.0)
+            with energy_units("1/cm"):
+                ms = []
+                for k_ in range(nsite):
+                    m_ = Molecule([0.0, 12000.0 + rng.randint(-200, 200)])
+                    m_.set_transition_environment((0, 1), CorrelationFunction(tat, dict(ftype="OverdampedBrownian", reorg=rng.choice([20.0, 35.0]),
+                                                                                       cortime=rng.choice([60.0, 100.0]), T=300, matsubara=20)))
+                    ms.append(m_)
+                ag = Aggregate(ms)
+                for i_ in range(nsite):
+                    for j_ in range(i_ + 1, nsite):
+                        ag.set_resonance_coupling(i_, j_, rng.choice([50.0, -80.0, 120.0]))
+            ag.build()
+            hm, sb = ag.get_Hamiltonian(), ag.get_SystemBathInteraction()
+            for what, calc in (("RedfieldRelaxationTensor", lambda: numpy.array(RedfieldRelaxationTensor(hm, sb).data).copy()),
+                               ("RedfieldRelaxationTensor(as_operators -> tensor)", lambda: (lambda R: (R.convert_2_tensor(), numpy.array(R.data).copy())[1])(RedfieldRelaxationTensor(hm, sb, as_operators=True))),
+                               ("RedfieldRateMatrix", lambda: numpy.array(RedfieldRateMatrix(hm, sb).data).copy())):
+                serial = calc()
+                for P in (2, 3, nsite + 2):
+                    inp = {"distributed": what, "sites": nsite, "processes": P}
+                    ck.case(("dist", what, nsite, P, h), nontrivial=True, kind="distributed-use", api=what.split("(")[0], size=min(P, 8))
+                    try:
+                        results, tables = emulate(calc, P)
+                    except Exception as e:
+                        ck.fail("raises:distributed:%s" % what.split("(")[0], "simulated distributed run raised %r" % (e,), inp)
+                        continue
+                    worst = max(float(numpy.abs(r_ - serial).max()) for r_ in results)
+                    if worst > 1e-12 * max(1.0, float(numpy.abs(serial).max())):
+                        ck.fail("reduce:distributed:%s" % what.split("(")[0], "sum-reduced result of the distributed loop differs from the serial result",
+                                inp, worst)
+                    for tb in tables:
+                        nb_ = tb[-1][1] - tb[0][0] if tb else 0
+                        oracle_ranges(ck, P, tb[0][0], tb[-1][1], tb, "distributed:" + what.split("(")[0])
+    except Exception as e:
+        ck.fail("raises:distributed-setup", "setting up the distributed-use cases raised %r" % (e,), {})
     # ---- model ------------------------------------------------------------
     if ok:
         model_out = ck.drive(DRIVER, lines)
